@@ -152,14 +152,22 @@ func checkSemantics(res *dbdrv.Result, pts []qPoint, q qSpec) (string, string) {
 					}
 				}
 			} else if ai >= 0 {
-				// straddles an edge of the window: whatever it holds must come from points of its own interval
+				// straddles an edge of the window: whatever it holds must come from points of its own interval, and
+				// not from stored periods that end at or before the requested asOf or begin at or after the
+				// requested until (C07: no such period is returned, be it inside a coarser row)
 				var all uint64
 				for _, p := range in {
+					if q.ReqA != math.MinInt64 && p.E <= q.ReqA {
+						continue
+					}
+					if q.ReqU != math.MaxInt64 && p.E-q.NativeRs >= q.ReqU {
+						continue
+					}
 					all |= uint64(p.A)
 				}
 				got := uint64(r.Vals[ai])
 				if float64(got) != r.Vals[ai] || got&^all != 0 {
-					return "foreign-points-in-row", fmt.Sprintf("key %q: row (%s, %s] has a = %v which is not a sum of points of that interval", k, d(T-P), d(T), r.Vals[ai])
+					return "foreign-points-in-row", fmt.Sprintf("key %q: row (%s, %s] has a = %v which is not a sum of points of that interval lying inside the requested range (permitted points sum to %v)", k, d(T-P), d(T), r.Vals[ai], all)
 				}
 			}
 		}
